@@ -159,6 +159,26 @@ mod verif_c11 {
         kani::cover!(b > a);
         kani::cover!(b < a);
     }
+    /// tiny windows at two fixed counter offsets (cheap: most bits of the 128-bit division are
+    /// constants); together they also pin translation invariance for these offsets
+    fn tiny(base: u64) {
+        let a: u8 = kani::any(); let b: u8 = kani::any(); let f: u8 = kani::any();
+        kani::assume(f != 0);
+        let (a, b, f) = (base + a as u64, base + b as u64, f as u64);
+        let d = TscTimestamp { value: b }.duration_since(TscTimestamp { value: a }, NonZeroU64::new(f).unwrap());
+        if b >= a {
+            // (b - a) < 256 and f < 256: the exact quotient fits u64 arithmetic
+            let n: u64 = (b - a) * 1_000_000_000_000u64;
+            assert!(d.picos == (n / f) as u128);
+        } else {
+            assert!(d.picos == 0);
+        }
+        kani::cover!(b > a); kani::cover!(b < a);
+    }
+    #[kani::proof]
+    fn tsc_tiny_base0() { tiny(0); }
+    #[kani::proof]
+    fn tsc_tiny_base40() { tiny(1u64 << 40); }
     #[kani::proof]
     fn fine_duration_default() {
         let d: FineDuration = Default::default();
@@ -221,6 +241,8 @@ def build(S: Sources) -> Unit:
             KaniHarness("verif_c11::tsc_duration_since", "complete", covers="TscTimestamp::duration_since", tier="thorough"),
             KaniHarness("verif_c11::tsc_duration_since_small", "bounded", bound="readings within 2^16 of an arbitrary base, frequency < 2^16",
                         covers="TscTimestamp::duration_since (counterexample source in the quick tier)"),
+            KaniHarness("verif_c11::tsc_tiny_base0", "bounded", bound="readings 0..255, frequency 1..255", covers="TscTimestamp::duration_since (cheap counterexample source)"),
+            KaniHarness("verif_c11::tsc_tiny_base40", "bounded", bound="readings 2^40 + 0..255, frequency 1..255", covers="TscTimestamp::duration_since (cheap counterexample source, translation)"),
             KaniHarness("verif_c11::fine_duration_default", "complete", covers="trusted spec of derived FineDuration::default"),
             KaniHarness("verif_c11_ts::timestamp_duration_since_tsc_arm", "complete", covers="Timestamp::duration_since (Tsc arm dispatch)"),
             KaniHarness("verif_c11_fd::from_duration_exact", "complete", covers="<FineDuration as From<Duration>>::from"),
@@ -250,7 +272,7 @@ def verus_files(S: Sources):
     secs.append(ghost("trusted derived Default", TRUSTED, kind="trusted"))
     f_ds = tsc.find_fn("duration_since", impl=r"impl TscTimestamp\b")
     secs += wrap_impl("impl TscTimestamp", [
-        code_fn(tsc, f_ds, "TscTimestamp::duration_since", ret="r", pair=["verif_c11::tsc_duration_since", "verif_c11::tsc_duration_since_small"],
+        code_fn(tsc, f_ds, "TscTimestamp::duration_since", ret="r", pair=["verif_c11::tsc_duration_since", "verif_c11::tsc_duration_since_small", "verif_c11::tsc_tiny_base0", "verif_c11::tsc_tiny_base40"],
                 inserts=[(r"FineDuration \{ picos : \( diff as u128 \* PICOS \)", "before", """
                     proof {
                         assert(0 <= (diff as int) * 1_000_000_000_000 <= 0xffff_ffff_ffff_ffff * 1_000_000_000_000) by (nonlinear_arith)
